@@ -1,9 +1,12 @@
 #!/bin/sh
-# tools/matrix.sh [names...]: run every seeded change against the quick check of its property (scratch worktree), append to seeded/RESULTS.tsv
+# tools/matrix.sh [names...]: run every seeded change against the quick check of its property (and of the properties in meta.also_run)
+# in a scratch worktree; appends to seeded/RESULTS.tsv
 cd /verif
 names="$@"; [ -z "$names" ] && names=$(ls seeded | grep -v RESULTS)
 for n in $names; do
-  p=$(/venv/bin/python -c "import json;print(json.load(open('seeded/$n/meta.json'))['property'])")
-  out=$(tools/try_mutant.sh seeded/$n/patch.diff $p quick 2>&1 | grep -E "^exit=|HELD|VIOLATED|MACHINERY" | tr '\n' ' ')
-  echo "$(date +%H:%M) $n $p $out" | tee -a seeded/RESULTS.tsv
+  props=$(/venv/bin/python -c "import json;m=json.load(open('seeded/$n/meta.json'));print(' '.join([m['property']]+m.get('also_run',[])))")
+  for p in $props; do
+    out=$(tools/try_mutant.sh seeded/$n/patch.diff $p quick 2>&1 | grep -E "^exit=|HELD|VIOLATED|MACHINERY" | tr '\n' ' ')
+    echo "$(date +%H:%M) $n $p $out" | tee -a seeded/RESULTS.tsv
+  done
 done
